@@ -7,6 +7,7 @@ spec = importlib.util.spec_from_file_location("claims", os.path.join(ROOT, "tool
 claims = importlib.util.module_from_spec(spec); spec.loader.exec_module(claims)
 import sys
 sys.path.insert(0, os.path.join(ROOT, "tools/runner"))
+sys.path.insert(0, os.path.join(ROOT, "tools/runner/props"))
 ALL = ["C%02d" % i for i in range(1, 21)]
 CLAIMS = {}
 for pid in ALL:
